@@ -24,6 +24,7 @@ SPECS = {
     "D1": dict(r=S.R("D1", [S.F("a"), S.F("b", default="Default")]), names=["my"], fwd=["doc", "allow"], attrs_at="x*.attrs", wrap="struct Foo;"),
     "D2": dict(r=S.R("D2", [S.F("a", ty="Option<Opq>"), S.F("m", ty="Vec<Opq>", multiple=True)]), names=["my", "other"], fwd="all", attrs_at="x*.attrs",
                wrap="struct Foo;"),
+    "D3": dict(r=S.R("D3", [S.F("a", ty="Option<Opq>")]), names=["my", "other"], fwd=["other", "doc"], attrs_at="x*.attrs", wrap="struct Foo;"),
     "A1": dict(r=S.R("A1", [S.F("a"), S.F("b", default="Default")]), names=["my"], fwd=None, attrs_at="x*", wrap="struct Foo;"),
     "F1": dict(r=S.R("F1", [S.F("a", ty="Option<Opq>", default="Default")]), names=["my"], fwd=["doc"], attrs_at="x*.attrs", wrap=None),
     "T1": dict(r=S.R("T1", [S.F("a", ty="Option<Opq>", default="Default")]), names=["my"], fwd=None, attrs_at="x*.attrs", wrap=None),
@@ -70,7 +71,7 @@ def attr_class(ck, l, base, names, fwd):
     if fwd == "all":
         forwarded = sel is None
     elif fwd:
-        forwarded = name in fwd
+        forwarded = sel is None and name in fwd      # a selected attribute is consumed, never forwarded ("the non-consumed forwarded attributes")
     else:
         forwarded = False
     return sel, forwarded, name
@@ -160,7 +161,7 @@ def witness_src(ck, l, spec, rn, shape, uniq):
     return src, mdl
 
 
-def loose_shape(l, at, spec):
+def loose_shape(l, at, spec, open_as="bare"):
     """shape of the attribute vector for a witness when some forms were never decided (panic leaves)"""
     shape = []
     for j in range(l.decisions.get(at + "#len", 0)):
@@ -170,7 +171,9 @@ def loose_shape(l, at, spec):
             shape.append(("other", name, base))
             continue
         form = l.decisions.get(base + ".meta#d")
-        if form in (0, None):
+        if form is None:
+            shape.append((open_as, sel, base))
+        elif form == 0:
             shape.append(("bare", sel, base))
         elif form == 2:
             shape.append(("nv", sel, base))
@@ -204,7 +207,24 @@ def job(ck, prog, natbin, rn, M, K, colon, quick):
             continue
         mi = merged_items(ck, l, at, spec)
         if mi is None:
-            ck.engine("%s: leaf leaves a selected attribute's form open (%r)" % (rn, l.decisions))
+            # the path never looks at the form of an attribute it must select, i.e. it treats `#[name]`, `#[name(..)]` and `#[name = ..]`
+            # alike although the last one is an error: complete the attribute as name-value and replay against the real build
+            ck.obligations += 1
+            opened = [s_ for s_ in loose_shape(l, at, spec, "OPEN") if s_[0] == "OPEN"]
+            if not opened:
+                ck.engine("%s: leaf leaves a selected attribute's body open (%r)" % (rn, l.decisions))
+                continue
+            psrc = witness_src(ck, l, spec, rn, loose_shape(l, at, spec, "nv"), uniq)[0]
+            req = "(di %s %s)" % (rn, sx_str(psrc))
+            nat = native.ask(req)
+            res_ = nat.get("result") if isinstance(nat, dict) else None
+            if isinstance(res_, dict) and "err" in res_:
+                ck.engine("%s: leaf leaves a selected attribute's form open, yet the native run rejects the name-value completion (%s)" % (rn, req))
+            elif isinstance(res_, dict) and "ok" in res_:
+                ck.report("%s:selected-attribute-never-inspected" % rn, "a selected attribute (%s) is never looked at: its name-value form, an error, is accepted and its items are lost"
+                          % ", ".join(str(s_[1]) for s_ in opened), {"property": "C08", "crate": "hderive", "request": req, "observed": nat})
+            else:
+                ck.engine("%s: leaf leaves a selected attribute's form open; the completion could not be replayed (%s -> %s)" % (rn, req, str(nat)[:160]))
             continue
         items, errs, fwd_expected, shape = mi
         orc = Oracle(ck, l)
@@ -301,9 +321,9 @@ def prepare(ck):
     """configure `ck` and return the list of jobs of this property's exploration"""
     ck.crate = "hderive"
     quick = ck.tier == "quick"
-    cfgs = [("D0", 2, 1, False), ("D1", 2, 1, False), ("D2", 2, 1, False), ("A1", 2, 1, False), ("F1", 2, 1, False), ("T1", 2, 1, False)]
+    cfgs = [("D0", 2, 1, False), ("D1", 2, 1, False), ("D2", 2, 1, False), ("D3", 2, 1, False), ("A1", 2, 1, False), ("F1", 2, 1, False), ("T1", 2, 1, False)]
     if not quick:
-        cfgs = [("D0", 3, 1, True), ("D1", 3, 1, False), ("D2", 2, 2, False), ("A1", 3, 1, False), ("F1", 2, 1, True), ("T1", 2, 1, True)]
+        cfgs = [("D0", 3, 1, True), ("D1", 3, 1, False), ("D2", 2, 2, False), ("D3", 2, 2, False), ("A1", 3, 1, False), ("F1", 2, 1, True), ("T1", 2, 1, True)]
     ck.bounds = {"receivers": [c[0] for c in cfgs], "attributes_per_element": "0..M, M = %s" % {c[0]: c[1] for c in cfgs},
                  "items_per_attribute": "0..K, K = %s" % {c[0]: c[2] for c in cfgs}, "attribute_names": "unbounded strings, 1..2 path segments",
                  "leading_colon_on_attribute_paths": "thorough only"}
